@@ -58,7 +58,7 @@ Definition min_opt (x y : option nat) : option nat :=
   end.
 
 (* model ids: 0 spec only | 1 crtl gated (queues.py) | 2 crtl ungated (stream) | 3 e1 | 4 s1 | 5 p1 | 6 v1 | 7 vq
-              | 8 cl, enq block scheduled first | 9 cl, deq block scheduled first *)
+              | 8 cl, enq block scheduled first | 9 cl, deq block scheduled first | 10 stream acceptor (chains) *)
 Definition case_first_bad (c : Z * Z * Z * list ccode) : option nat :=
   let '(mid, kz, nz, hc) := c in
   let k := kind_of kz in let n := Z.to_nat nz in
@@ -77,14 +77,16 @@ Definition case_first_bad (c : Z * Z * Z * list ccode) : option nat :=
     else if mid =? 8 then cl_first_bad k n true [] 0%nat ho
     else if mid =? 9 then cl_first_bad k n false [] 0%nat ho
     else None in
-  min_opt spec model.
+  if mid =? 10 then stream_first_bad n [] 0%nat ho      (* chain: end-to-end streams only, n = bound on outstanding messages *)
+  else min_opt spec model.
 
 Definition case_ok (c : Z * Z * Z * list ccode) : bool := none_nat (case_first_bad c).
 
 (* (first bad cycle w.r.t. the specification, w.r.t. the concrete model) — for reports *)
 Definition case_diagnosis (c : Z * Z * Z * list ccode) : option nat * option nat :=
   let '(mid, kz, nz, hc) := c in
-  (fifo_first_bad (kind_of kz) (Z.to_nat nz) [] 0%nat (map co (map cobs_of hc)),
+  ((if mid =? 10 then stream_first_bad (Z.to_nat nz) [] 0%nat (map co (map cobs_of hc))
+    else fifo_first_bad (kind_of kz) (Z.to_nat nz) [] 0%nat (map co (map cobs_of hc))),
    case_first_bad (mid, kz, nz, hc)).
 
 (* what the specification expects in cycle i of a history (for reports) *)
